@@ -219,11 +219,25 @@ def run(run):
     d = env.subdir('c16')
     # ---- reference: the strictly sequential execution of every configuration
     refs = {}
+    stall_only = []
     for ci, (label, thunk, rate) in enumerate(cfgs):
         for cap in caps:
             r = run_schedule((ci, cap, 'sequential', None))
             case = {'config': label, 'cap': cap, 'schedule': 'sequential'}
             run.case(case, nontrivial=False)
+            if r['outcome'] != 'returned' and "object has no attribute" in str(r['error']) and ('SchedQueue' in str(r['error']) or 'SchedFile' in str(r['error']) or 'SchedThread' in str(r['error'])):
+                # the code reaches into the queue / thread / file object beyond the interface the cooperative scheduler stands in for: no verdict
+                # from this pass (a harmless peek would look the same); the stall pass runs the real objects and decides
+                run.drift(f'{label} cap={cap}: the cooperative scheduler cannot stand in for this code ({r["error"]}); stall pass only')
+                with env.quiet():
+                    pp = os.path.join(env.subdir(f'c16u{os.getpid()}'), 'ref.sgz')
+                    r0 = stall.execute(lambda: thunk(pp, cap), pp, None)
+                if r0['error'] is None:
+                    par.G['ref'][(ci, cap)] = r0['data']
+                    stall_only.append((ci, cap))
+                else:
+                    run.fail('C16.terminates', case, r0['error'], 'returned')
+                continue
             if not run.check(r['outcome'] == 'returned' and r['late'] == 0, 'C16.terminates', case, (r['outcome'], r['error'], r['pending']), 'returned'):
                 continue
             refs[(ci, cap)] = r
@@ -296,7 +310,7 @@ def run(run):
             run.drift(f"{label} cap={cap}: executed actions differ from the model path at step "
                       f"{next((i for i, (x, y) in enumerate(zip(r['acts'], spec)) if x != y), len(spec))}")
         traces.setdefault((ci, cap), []).append(r['trace'])
-    stall_pass(run, cfgs, refs)
+    stall_pass(run, cfgs, list(refs) + stall_only)
     # ---- code -> spec: validate every executed trace against Trace_Writer
     tjobs = list(traces.items())
 
